@@ -903,6 +903,35 @@ func ruleR0510(c *Ctx) {
 			}
 		}
 		strong := len(errTargets)+len(ptrTargets) > 0
+		// the function that defers this literal: its plain locals die with it
+		var deferring ast.Node
+		if lit, ok := fn.(*ast.FuncLit); ok {
+			if call, ok := c.Parent(lit).(*ast.CallExpr); ok && call.Fun == ast.Expr(lit) {
+				if _, ok := c.Parent(call).(*ast.DeferStmt); ok {
+					deferring = c.EnclosingFunc(lit)
+				}
+			}
+		}
+		namedResult := func(obj types.Object) bool {
+			var t *ast.FuncType
+			switch f := deferring.(type) {
+			case *ast.FuncDecl:
+				t = f.Type
+			case *ast.FuncLit:
+				t = f.Type
+			}
+			if t == nil || t.Results == nil {
+				return false
+			}
+			for _, f := range t.Results.List {
+				for _, nm := range f.Names {
+					if info.Defs[nm] == obj {
+						return true
+					}
+				}
+			}
+			return false
+		}
 		isSink := func(x ast.Node) bool {
 			return containsNode(x, func(y ast.Node) bool {
 				switch t := y.(type) {
@@ -915,7 +944,11 @@ func ruleR0510(c *Ctx) {
 								return true
 							}
 							if !strong && obj != nil && (obj.Pos() < fn.Pos() || obj.Pos() > fn.End()) {
-								return true // a captured variable / named result of the enclosing function
+								// a captured variable: it has to outlive the deferring function (a named result of it,
+								// or a variable of a scope further out); a plain local of the deferring function is lost
+								if deferring == nil || namedResult(obj) || obj.Pos() < deferring.Pos() || obj.Pos() > deferring.End() {
+									return true
+								}
 							}
 						}
 						if st, ok := l.(*ast.StarExpr); ok {
